@@ -420,4 +420,91 @@ theorem text_roundtrip (cd : Codec) (c : Files.Case) (t : List Char) (hd : c.dat
     simp only at hread
     exact ⟨trivial, trivial, hread, htx⟩
 
+/-! ### forbidden text, and the Spec for all cases -/
+
+theorem send_illegal (buf : Bytes) (s : St) (h : forbidden s.blacklist buf = true) :
+    send buf true none false s = (.error .illegal, s) := by
+  unfold send
+  have hne : buf.isEmpty = false := by
+    cases buf with
+    | nil => simp [forbidden] at h
+    | cons _ _ => rfl
+  simp [hne, h]
+
+/-- **a text with a byte the shell forbids is rejected** with `IllegalDataException`, whatever the
+    fragmentation (on the `printf` path before anything is sent; on the `tee` path after `tee` was
+    started — the call leaves it running, see the report). -/
+theorem text_forbidden (cd : Codec) (c : Files.Case) (t : List Char) (hd : c.data = .text t) (hwf : c.wf = true)
+    (hforb : forbidden (blacklist c) (enc t) = true) (pw pr : List Nat) :
+    (Files.run cd c pw pr).ret = .err "illegal" := by
+  have hw := wf_facts c hwf
+  obtain ⟨x, hxbl, hxe⟩ := (C03.forbidden_iff _ _).mp hforb
+  obtain ⟨_, hsq, hdq, _⟩ := (blTable c).sp x hxbl
+  have hret : (runWrite cd c pw).1 = .error (.chan .illegal) := by
+    unfold runWrite
+    simp only [hd]
+    unfold writeText
+    cases hfast : fastPath (enc t) with
+    | true =>
+      simp only [hfast, if_true]
+      have hfl : forbidden (blacklist c) (printfLine c.path (enc t) ++ [13]) = true := by
+        rw [C03.forbidden_iff]
+        refine ⟨x, hxbl, ?_⟩
+        rw [printfLine_eq]
+        simp only [List.mem_append, List.mem_cons]
+        exact Or.inl (Or.inr (Or.inr (Or.inr (Or.inr (Or.inl ((mem_shlexQuote x hsq hdq _).mpr hxe))))))
+      unfold exec0Fed sendline
+      rw [send_illegal _ _ (by simpa [feed, Files.initSt] using hfl)]
+    | false =>
+      simp only [hfast, Bool.false_eq_true, if_false]
+      obtain ⟨ha1, hn1⟩ := cutBy_spec (splitSizes pw (writeAns1 cd c).length).1 (writeAns1 cd c)
+      have hf := ss_feed _ (ss_init c hw.chunk) hn1
+      have hans : writeAns1 cd c = Tty.echo false (teeLine c.path ++ [13])
+          ++ (Remote.echoTyped (writeBody cd c) ++ prompt c) := by
+        unfold writeAns1 writeLine
+        simp [hd, hfast, Tty.CR, List.append_assoc]
+      rw [ha1.trans hans] at hf
+      simp only [List.nil_append] at hf
+      obtain ⟨px, s1, h1, _, hss1⟩ := runEnter_ok (teeLine c.path) _ hf (promptOk c) (forb_teeLine (blTable c) _ hw.forb)
+      simp only [h1]
+      rw [send_illegal _ _ (by rw [hss1.bl]; exact hforb)]
+  unfold Files.run
+  cases hr : runWrite cd c pw with
+  | mk rw sw =>
+    rw [hr] at hret
+    simp only at hret
+    subst hret
+    rfl
+
+/-- **C11.**  For every codec with the base64 properties, every case and EVERY fragmentation of
+    the two conversations, the model's observation satisfies the specification. -/
+theorem spec_holds (cd : Codec) (hcd : CodecOk cd) (c : Files.Case) (pw pr : List Nat) :
+    Spec.C11 c (Files.run cd c pw pr) = true := by
+  unfold Spec.C11
+  cases hwf : c.wf with
+  | false => rfl
+  | true =>
+    simp only [Bool.not_true, Bool.false_or]
+    unfold spec
+    cases hd : c.data with
+    | bytes d =>
+      obtain ⟨h1, h2, h3, _⟩ := bytes_roundtrip cd hcd c d hd hwf pw pr
+      simp only [h1, h2, h3, beq_self_eq_true, Bool.and_self]
+    | text t =>
+      simp only
+      cases hforb : forbidden (blacklist c) (enc t) with
+      | true =>
+        simp only [if_true]
+        rw [text_forbidden cd c t hd hwf hforb pw pr]
+        simp
+      | false =>
+        simp only [Bool.false_eq_true, if_false]
+        cases hdom : textOk c t with
+        | false => simp
+        | true =>
+          simp only [if_true]
+          obtain ⟨h1, h2, h3, _⟩ := text_roundtrip cd c t hd hwf hdom pw pr
+          simp only [h1, h2, h3, beq_self_eq_true, Bool.true_and]
+          cases fastPath (enc t) <;> simp
+
 end C11
